@@ -425,7 +425,7 @@ void checkOracles(const Desc& d, const Obs& o, RunResult& r) {
                     bool synthetic = d.pi("synthetic") != 0;
                     // events in the order the parent meets them
                     Vec<Op> evs;
-                    for (size_t i = 0; i < T.ops.size(); i++) if (T.ops[i].phase == PH_PROC && (T.ops[i].kind == K_W_EINTR || synthetic)) evs.push_back(T.ops[i]);
+                    for (size_t i = 0; i < T.ops.size(); i++) if (T.ops[i].phase == PH_PROC && (T.ops[i].kind == K_W_EINTR || T.ops[i].kind == K_W_ERR || synthetic)) evs.push_back(T.ops[i]);
                     if (!synthetic) {
                         for (int k = 0; k < x.childStops; k++) { Op o; o.kind = K_W_STOP; o.a = 19; evs.push_back(o); }
                         Op o;
@@ -470,6 +470,7 @@ void checkOracles(const Desc& d, const Obs& o, RunResult& r) {
                     for (size_t i = 0; i < x.fails.size(); i++) if (x.fails[i].kind == 0 && x.fails[i].token.compare(0, 2, "tk") == 0) {
                         if (eintr == 0 && !forkFail) childTokens[x.fails[i].token]++; else childDontCare.insert(x.fails[i].token);
                     }
+                if (!d.pi("synthetic")) for (size_t i = 0; i < T.ops.size(); i++) if (T.ops[i].phase == PH_PROC && T.ops[i].kind == K_W_ERR) childrenMayOverlap = true;
                 if (eintr > 30) childrenMayOverlap = true;      // the parent may have stopped waiting: that child goes on beside the next ones and their output interleaves byte by byte
                 if (!seen.empty()) r.fail("C11", "ran_in_parent", sfmt("test %d executed %zu statements in the parent process", st.test, seen.size()));
                 repFailures += segFails.size(); failCursor += segFails.size();
